@@ -34,6 +34,7 @@ const (
 	yHealthDims             // pods vary in health and revision (else healthy, update revision)
 	yOrphanRevs             // the set's own revisions may be orphans (adoption path)
 	yStatusConflict         // the status write may hit a conflict and be retried
+	yCacheLosesSet          // the set may leave the informer cache while the reconcile is in flight
 )
 
 // sync monitor bits
@@ -305,6 +306,10 @@ func VH_Sync(a []int) {
 	sw := vBuildSync(N, R, K, opts)
 	if opts&yStatusConflict != 0 {
 		sw.w.faultBudget, sw.w.faultKinds, sw.w.faultOnly = 1, 2, "set.updateStatus"
+	}
+	if opts&yCacheLosesSet != 0 && sym.Pick("cacheLosesSet", 2) == 1 {
+		sw.w.setLeavesCacheAfter = 1 // only the reconcile's own first lookup still finds it
+		sym.Cover("the set leaves the cache during the reconcile")
 	}
 	ssc := vNewController(sw.w)
 	if mon&nC10 != 0 {
